@@ -85,8 +85,36 @@ Definition fail_body (line : option str) (f : mfunc) (kw : env) : result (list v
 Definition run_on (b : mfunc -> env -> result (list val)) (v : variant) (st : storage) (q : req) (cleanup : bool) (s0 : fs)
   : outcome := run_fs b v st (q_funcs q) (q_inputs q) (q_internal q) cleanup s0.
 
+(* load_outputs on the folder the final run left: every output read back through init_store *)
+Definition sx_reload (q : req) (v : variant) (st : storage) (r : outcome) : sx :=
+  match o_result r with
+  | Err _ => SNone
+  | Ok _ =>
+      match mk_ctx q with
+      | Err e => SErr e
+      | Ok cx =>
+          match init_store v st cx (o_fs r, []) with
+          | Err e => SErr e
+          | Ok (_, rs) =>
+              SL (flat_map (fun f => match stored_view cx rs f with
+                                     | Ok l => map (fun ov => SL [SS (fst ov); Run_C06.sx_val (snd ov)]) l
+                                     | Err e => map (fun o => SL [SS o; SErr e]) (fouts f)
+                                     end) (q_funcs q))
+          end
+      end
+  end.
+
 Definition cut (evs : list event) (k : option nat) : list event :=
   match k with Some n => firstn n evs | None => evs end.
+
+(* the decidable hypotheses of C05_resume_eq_uninterrupted (order conditions; distinct files have distinct names) hold
+   for every request that satisfies C01's request_ok; the implementation side of this component is the constant True *)
+Definition hyps_ok (q : req) : bool :=
+  negb (MapDenote.request_ok (q_funcs q) (q_inputs q))
+  || match mk_ctx q with
+     | Ok cx => pipeline_order_ok (q_funcs q) && paths_ok cx (map fst (q_inputs q))
+     | Err _ => true
+     end.
 
 Definition run (c : case) : sx :=
   match c with
@@ -95,7 +123,7 @@ Definition run (c : case) : sx :=
       let r1 := run_on sym_body v st q true empty_fs in
       let r2 := run_on sym_body v st q false (o_fs r1) in
       SL [SL (map sx_event (o_events r1)); sx_outcome q (o_result r1);
-          SL (map sx_event (o_events r2)); sx_outcome q (o_result r2)]
+          SL (map sx_event (o_events r2)); sx_outcome q (o_result r2); SB (hyps_ok q)]
   | CCrash q st old fail k1 k2 =>
       let v := variant_of old in
       let line := match fail with Some (fn, n) => nth_call_line q fn n | None => None end in
@@ -106,14 +134,14 @@ Definition run (c : case) : sx :=
       | None =>
           let r := run_on sym_body v st q false s1 in
           SL [listing q s1; sx_outcome q (o_result r);
-              Run_C06.sx_calls (call_lines e1); Run_C06.sx_calls (call_lines (o_events r))]
+              Run_C06.sx_calls (call_lines e1); Run_C06.sx_calls (call_lines (o_events r)); sx_reload q v st r]
       | Some k =>
           let r2 := run_on sym_body v st q false s1 in
           let e2 := firstn k (o_events r2) in
           let s2 := apply_evs s1 e2 in
           let r := run_on sym_body v st q false s2 in
           SL [listing q s2; sx_outcome q (o_result r);
-              Run_C06.sx_calls (call_lines e1 ++ call_lines e2); Run_C06.sx_calls (call_lines (o_events r))]
+              Run_C06.sx_calls (call_lines e1 ++ call_lines e2); Run_C06.sx_calls (call_lines (o_events r)); sx_reload q v st r]
       end
   end.
 
@@ -165,7 +193,7 @@ Definition spec_ok (c : case) (obs : sx) : bool :=
       if old then true else
       match mk_oracle q, obs with
       | None, _ => true
-      | Some o, SL [_; out1; SL evs2; out2] =>
+      | Some o, SL [_; out1; SL evs2; out2; _] =>
           (* an uninterrupted run yields the denotation; re-running it with cleanup=False yields the same and calls nothing *)
           sx_eqb out1 (expected_outcome q o) && sx_eqb out2 (expected_outcome q o)
           && negb (existsb (fun e => match e with SL [SS k; _] => str_eqb k (s "call") | _ => false end) evs2)
@@ -175,11 +203,13 @@ Definition spec_ok (c : case) (obs : sx) : bool :=
       if old then true else   (* the old protocol is only documented (see Props/C05.v, resume_refuted_inplace) *)
       match mk_oracle q, obs with
       | None, _ => true
-      | Some o, SL [lst; out; _; calls] =>
+      | Some o, SL [lst; out; _; calls; reload] =>
           match un_strs calls with
           | Some cl =>
               (* the resumed run completes and yields exactly the uninterrupted results (hence no partial or stale value) *)
               sx_eqb out (expected_outcome q o)
+              (* ... also as read back from the folder afterwards *)
+              && sx_eqb (SL [SS (s "ok"); reload]) (expected_outcome q o)
               (* and recomputes no element that was completely stored *)
               && forallb (fun l => negb (mem_str l cl)) (stored_calls q o st lst)
           | None => false
